@@ -65,6 +65,7 @@ type sessCall struct {
 	Keys    bson.D
 	Unique  bool
 	Name    string
+	Models  []apiBulk // bulkWrite
 }
 
 func (c *sessCall) isWrite() bool {
@@ -127,6 +128,11 @@ func (c *sessCall) fields() string {
 		sortOpt()
 	case "dropIndex":
 		sb.WriteString(`,"name":` + run.JS(c.Name))
+	case "bulkWrite":
+		// the encoding of the api stream (Driver.OpsApi.callOf)
+		line := (&apiCall{M: "bulkWrite", Ordered: c.Ordered, Models: c.Models}).req(nil, "")
+		i, j := strings.Index(line, `,"ordered":`), strings.LastIndex(line, `,"oids":`)
+		sb.WriteString(line[i:j])
 	case "dropCollection", "listIndexes", "estCount", "createCollection", "dropAllIndexes":
 	}
 	return sb.String()
@@ -239,6 +245,9 @@ type sessRunner struct {
 	dead      bool
 	nstep     int
 	hk        string // history key (harness-only request field)
+	txnFailed int    // failed / successful write statements of the open transaction
+	txnWrote  int
+	reported  map[string]bool // index issues already reported in this history
 }
 
 func newSessRunner(nSess int) (*sessRunner, error) {
@@ -402,6 +411,16 @@ func (m *sessRunner) exec(ctx context.Context, c *sessCall) (reply string, panic
 			o.SetSort(c.Sort)
 		}
 		return sessSingleReply(coll.FindOneAndUpdate(ctx, c.Q, c.U, o)), ""
+	case "bulkWrite":
+		var models []mongo.WriteModel
+		for i := range c.Models {
+			models = append(models, c.Models[i].model())
+		}
+		res, err := coll.BulkWrite(ctx, models, options.BulkWrite().SetOrdered(c.Ordered))
+		if res == nil {
+			return sessErrReply(err), ""
+		}
+		return bulkReply(res, err), ""
 	case "createIndex":
 		im := mongo.IndexModel{Keys: c.Keys}
 		if c.Unique {
@@ -554,6 +573,11 @@ func (m *sessRunner) step(st *sessStep, h *sessHist) sessOut {
 	wasDirty := false
 	preView := m.view(st.Sid)
 	preLog := sessOplog(preView)
+	inTxnWrite := st.K == "call" && holder >= 0 && st.Sid == holder && st.C != nil && st.C.isWrite()
+	viewDeep := ""
+	if inTxnWrite {
+		viewDeep = sessDumpOpt(preView, true)
+	}
 
 	switch st.K {
 	case "start":
@@ -712,9 +736,49 @@ func (m *sessRunner) step(st *sessStep, h *sessHist) sessOut {
 		m.dead = true
 	}
 
+	// ---- statements inside a transaction (C02 / C15 / C07) ----
+	// a statement that FAILED (e.g. in the index phase, at the second document of a multi-update) leaves
+	// the transaction's view exactly as it was: the application may ignore the error and commit, and the
+	// committed catalog then is the transaction without the failed statement — documents and indexes
+	if inTxnWrite && pan == "" {
+		cur := m.view(st.Sid)
+		if !sessIsOK(reply) && reply != sessBlockedReply {
+			m.txnFailed++
+			tags = append(tags, "txn-statement-failed")
+			if now := sessDumpOpt(cur, true); now != viewDeep {
+				viol("C02", "a failed statement inside a transaction changed the transaction's view", "failed-statement-leaked", "reply "+reply+"\nbefore "+viewDeep+"\nafter  "+now)
+			}
+		} else if sessIsOK(reply) && cur != preView {
+			m.txnWrote++
+		}
+		m.coherent(cur, "the transaction's view after "+st.C.M+" "+clip(reply, 40), viol)
+		m.uniqueOK(cur, viol)
+	}
+	if st.K == "call" && !inTxnWrite && st.C.isWrite() && pan == "" && postCat != preCat {
+		m.coherent(postCat, "the committed catalog after "+st.C.M, viol)
+		m.uniqueOK(postCat, viol)
+	}
+	if st.K == "call" && st.C.M == "insertOne" && reply == `{"err":"dup"}` {
+		if !collides(preView.Namespaces[st.C.handle()], st.C.Doc) {
+			viol("C07", "an insert was rejected as duplicate although no unique index holds a colliding key", "spurious-dup", vj.Enc(st.C.Doc))
+		}
+	}
+
 	// ---- visibility / atomicity monitors (independent of the model) ----
 	inTxnCall := st.K == "call" && holder >= 0 && st.Sid == holder
 	committedOK := st.K == "commit" && holder >= 0 && st.Sid == holder && reply == sessDoneReply && !storeFailed
+	if st.K == "commit" || st.K == "abort" || st.K == "end" || st.K == "idxabort" {
+		if committedOK {
+			if m.txnFailed > 0 && m.txnWrote > 0 {
+				tags = append(tags, "commit-after-failed-statement")
+			}
+			m.coherent(postCat, "the committed catalog after commit", viol)
+			m.uniqueOK(postCat, viol)
+		}
+		if postHolder < 0 {
+			m.txnFailed, m.txnWrote = 0, 0
+		}
+	}
 	switch {
 	case committedOK:
 		if postDump != viewDump {
@@ -912,8 +976,39 @@ func (m *sessRunner) coherent(cat *lungo.Catalog, where string, viol func(prop, 
 	}
 	for _, h := range sessSortedHandles(cat) {
 		for _, is := range indexIssues(cat.Namespaces[h]) {
+			if k := h.String() + "|" + is.reason + "|" + is.detail; m.reported[k] {
+				continue
+			} else if m.reported == nil {
+				m.reported = map[string]bool{k: true}
+			} else {
+				m.reported[k] = true
+			}
 			viol("C15", "an index does not hold exactly the documents of its collection (within its partial filter) in key order", "index-incoherent:"+is.reason,
 				h.String()+" in "+where+": "+is.detail)
+		}
+	}
+}
+
+// uniqueOK: no two documents under a unique index share a key tuple (own pairwise scan, api_run.go).
+func (m *sessRunner) uniqueOK(cat *lungo.Catalog, viol func(prop, what, witness, detail string)) {
+	defer func() { _ = recover() }()
+	if cat == nil {
+		return
+	}
+	for _, h := range sessSortedHandles(cat) {
+		if h == lungo.Oplog {
+			continue
+		}
+		if name, a, b := uniqueViolation(cat.Namespaces[h]); name != "" {
+			k := h.String() + "|unique|" + name + "|" + vj.Enc(*a) + vj.Enc(*b)
+			if m.reported[k] {
+				continue
+			}
+			if m.reported == nil {
+				m.reported = map[string]bool{}
+			}
+			m.reported[k] = true
+			viol("C07", "two documents under a unique index share a key tuple", "unique-violated:"+name, h.String()+" "+vj.Enc(*a)+" "+vj.Enc(*b))
 		}
 	}
 }
